@@ -20,6 +20,7 @@ import (
 	"strconv"
 	"strings"
 	"sync"
+	"sync/atomic"
 	"syscall"
 	"time"
 
@@ -47,20 +48,22 @@ type PluginConf struct {
 
 // HostConf is the client side of a cell.
 type HostConf struct {
-	Allowed     []string `json:"allowed"` // nil = default
-	TLS         string   `json:"tls"`     // none | static | auto
-	Mux         bool     `json:"mux"`
-	Launch      string   `json:"launch"` // cmd | runner | reattach
-	Legacy      int      `json:"legacy"` // -1 none
-	Versions    []int    `json:"versions,omitempty"`
-	SkipHostEnv bool     `json:"skip_host_env"`
-	Conflict    string   `json:"conflict,omitempty"`    // cmd+reattach | secure+reattach | mux+reattach
-	ScriptLine  string   `json:"script_line,omitempty"` // plugin is a shell script printing this line instead of vplugin
-	Group       string   `json:"group,omitempty"`       // UnixSocketConfig.Group
-	MinPort     uint     `json:"min_port,omitempty"`
-	MaxPort     uint     `json:"max_port,omitempty"`
-	CertPEM     string   `json:"cert_pem,omitempty"` // static TLS: trust this server certificate
-	KeyPEM      string   `json:"key_pem,omitempty"`
+	Allowed        []string `json:"allowed"` // nil = default
+	TLS            string   `json:"tls"`     // none | static | auto
+	Mux            bool     `json:"mux"`
+	Launch         string   `json:"launch"` // cmd | runner | reattach
+	Legacy         int      `json:"legacy"` // -1 none
+	Versions       []int    `json:"versions,omitempty"`
+	SkipHostEnv    bool     `json:"skip_host_env"`
+	Conflict       string   `json:"conflict,omitempty"` // cmd+reattach | secure+reattach | mux+reattach
+	Script         string   `json:"script,omitempty"`   // plugin is this shell script
+	StartTimeoutMs int      `json:"start_timeout_ms,omitempty"`
+	ScriptLine     string   `json:"script_line,omitempty"` // plugin is a shell script printing this line instead of vplugin
+	Group          string   `json:"group,omitempty"`       // UnixSocketConfig.Group
+	MinPort        uint     `json:"min_port,omitempty"`
+	MaxPort        uint     `json:"max_port,omitempty"`
+	CertPEM        string   `json:"cert_pem,omitempty"` // static TLS: trust this server certificate
+	KeyPEM         string   `json:"key_pem,omitempty"`
 }
 
 // Cell is one unit of E3 work, executed by the host helper process.
@@ -143,8 +146,17 @@ func newProcRunner(cmd *exec.Cmd) (runner.Runner, error) {
 	return &procRunner{cmd: cmd, stdout: so, stderr: se}, nil
 }
 
-func (r *procRunner) Start(context.Context) error { return r.cmd.Start() }
-func (r *procRunner) Wait(context.Context) error  { return r.cmd.Wait() }
+func (r *procRunner) Start(context.Context) error {
+	err := r.cmd.Start()
+	if err == nil {
+		lastRunnerPid.Store(int64(r.cmd.Process.Pid))
+	}
+	return err
+}
+
+var lastRunnerPid atomic.Int64
+
+func (r *procRunner) Wait(context.Context) error { return r.cmd.Wait() }
 func (r *procRunner) Kill(context.Context) error {
 	if r.cmd.Process != nil {
 		if err := r.cmd.Process.Kill(); err != nil && !errors.Is(err, os.ErrProcessDone) {
@@ -179,9 +191,13 @@ func RunCell(c *Cell) (res *Result) {
 	hostTmp := os.Getenv("TMPDIR")
 	so, se := &lockedBuf{}, &lockedBuf{}
 
+	var lastCmd *exec.Cmd
 	mkCmd := func() *exec.Cmd {
 		var cmd *exec.Cmd
-		if c.Host.ScriptLine != "" {
+		defer func() { lastCmd = cmd }()
+		if c.Host.Script != "" {
+			cmd = exec.Command("sh", "-c", c.Host.Script)
+		} else if c.Host.ScriptLine != "" {
 			cmd = exec.Command("sh", "-c", "echo '"+c.Host.ScriptLine+"'; exec sleep 30")
 		} else {
 			cmd = exec.Command(c.VPlugin)
@@ -199,6 +215,9 @@ func RunCell(c *Cell) (res *Result) {
 			SyncStderr:          se,
 			SkipHostEnv:         c.Host.SkipHostEnv,
 			GRPCBrokerMultiplex: c.Host.Mux,
+		}
+		if c.Host.StartTimeoutMs > 0 {
+			cfg.StartTimeout = time.Duration(c.Host.StartTimeoutMs) * time.Millisecond
 		}
 		for _, a := range c.Host.Allowed {
 			cfg.AllowedProtocols = append(cfg.AllowedProtocols, plugin.Protocol(a))
@@ -283,6 +302,12 @@ func RunCell(c *Cell) (res *Result) {
 			record(op, t0, nil, "")
 		case "start":
 			_, err := clients[cur()].Start()
+			if lastCmd != nil && lastCmd.Process != nil && res.PluginPid == 0 {
+				res.PluginPid = lastCmd.Process.Pid
+			}
+			if res.PluginPid == 0 && lastRunnerPid.Load() > 1 {
+				res.PluginPid = int(lastRunnerPid.Load())
+			}
 			if err == nil {
 				res.Protocol = string(clients[cur()].Protocol())
 				res.Version = clients[cur()].NegotiatedVersion()
@@ -438,6 +463,29 @@ func RunCell(c *Cell) (res *Result) {
 			default:
 				record(op, t0, nil, "serving")
 			}
+		case "sigstop", "sigcont", "sigkillplugin":
+			if res.PluginPid <= 1 { // never signal pid 0 / -1 (the whole process group)
+				record(op, t0, errors.New("plugin pid unknown"), "")
+				break
+			}
+			sig := map[string]syscall.Signal{"sigstop": syscall.SIGSTOP, "sigcont": syscall.SIGCONT, "sigkillplugin": syscall.SIGKILL}[name]
+			err := syscall.Kill(res.PluginPid, sig)
+			time.Sleep(300 * time.Millisecond)
+			record(op, t0, err, "")
+		case "proc?": // state of the plugin pid: gone | zombie | <state letter>
+			st := "gone"
+			if res.PluginPid <= 1 {
+				st = "unknown-pid"
+			} else if b, err := os.ReadFile(fmt.Sprintf("/proc/%d/stat", res.PluginPid)); err == nil {
+				f := strings.Fields(string(b[strings.LastIndexByte(string(b), ')')+1:]))
+				if len(f) > 0 {
+					st = f[0]
+					if st == "Z" {
+						st = "zombie"
+					}
+				}
+			}
+			record(op, t0, nil, st)
 		case "pidgone": // wait up to 10 s for the plugin pid to disappear
 			gone := false
 			for i := 0; i < 100; i++ {
